@@ -13,6 +13,7 @@ import (
 	"path/filepath"
 	"sort"
 	"strings"
+	"sync"
 
 	"google.golang.org/protobuf/encoding/protojson"
 	"google.golang.org/protobuf/proto"
@@ -51,6 +52,9 @@ func concSchema() *abs.Schema {
 		{Name: "HealthReq", Fields: []*abs.Field{f("deep", 1, "bool", "one", q)}},
 		{Name: "EventsReq", Fields: []*abs.Field{f("since", 1, "int64", "one", q), f("kind", 2, "string", "rep", q)}},
 		{Name: "RecordReq", Fields: []*abs.Field{f("what", 1, "string", "one", abs.Ann{}), f("labels", 2, "string", "rep", abs.Ann{})}},
+		// one request message behind TWO routes whose path templates carry different variables: what is
+		// bound from the path is the route's business, not the message's
+		{Name: "MemberReq", Fields: []*abs.Field{f("id", 1, "string", "one", abs.Ann{}), f("org_id", 2, "string", "one", abs.Ann{}), f("role", 3, "string", "one", abs.Ann{})}},
 	}
 	m := func(name, in, verb, path string) *abs.Method {
 		return &abs.Method{Name: name, In: "cc.v1." + in, Out: "cc.v1.Out", HasCfg: true, Path: path, Verb: verb}
@@ -64,9 +68,11 @@ func concSchema() *abs.Schema {
 	file.Services = []*abs.Service{
 		{Name: "Items", HasBase: true, BasePath: "/api", Headers: []*abs.Header{{Name: "X-Api-Key", Type: "string", Required: true}},
 			Methods: []*abs.Method{m("ListItems", "ListReq", "GET", "/items"), m("GetItem", "GetReq", "GET", "/items/{id}"),
-				m("DeleteItem", "DelReq", "DELETE", "/items/{id}"), m("CreateItem", "CreateReq", "POST", "/items"), upd, health}},
+				m("DeleteItem", "DelReq", "DELETE", "/items/{id}"), m("CreateItem", "CreateReq", "POST", "/items"), upd, health,
+				m("UpdateMember", "MemberReq", "PUT", "/members/{id}")}},
 		{Name: "Audit", Methods: []*abs.Method{m("ListEvents", "EventsReq", "GET", "/events"),
-			{Name: "Record", In: "cc.v1.RecordReq", Out: "cc.v1.Out"}}},
+			{Name: "Record", In: "cc.v1.RecordReq", Out: "cc.v1.Out"},
+			m("UpdateOrgMember", "MemberReq", "PUT", "/orgs/{org_id}/members/{id}")}},
 	}
 	return &abs.Schema{Files: []*abs.File{file}}
 }
@@ -96,7 +102,13 @@ func (g *concGen) rawCall() *concCall {
 	}
 	qv := url.Values{}
 	body := ""
-	switch r.Intn(8) {
+	switch r.Intn(10) {
+	case 8:
+		op.Verb, op.URL = "PUT", "/api/members/"+pick(r, "m1", "m2")
+		body = pick(r, "", "{}", `{"role":"admin"}`, `{"orgId":"from-body","role":"viewer"}`)
+	case 9:
+		op.Verb, op.URL = "PUT", "/orgs/"+pick(r, "acme", "umbrella")+"/members/"+pick(r, "m1", "m2")
+		body = pick(r, "", "{}", `{"role":"admin"}`, `{"orgId":"from-body","role":"viewer"}`)
 	case 7:
 		op.Verb, op.URL = "GET", "/api/health"
 		if r.Intn(2) == 0 {
@@ -164,12 +176,13 @@ func (g *concGen) clientCall() *concCall {
 	r := g.r
 	type rpcT struct{ svc, rpc, in string }
 	rp := pick(r, rpcT{"Items", "ListItems", "ListReq"}, rpcT{"Items", "GetItem", "GetReq"}, rpcT{"Items", "DeleteItem", "DelReq"}, rpcT{"Items", "CreateItem", "CreateReq"},
-		rpcT{"Items", "UpdateItem", "UpdateReq"}, rpcT{"Items", "Health", "HealthReq"}, rpcT{"Audit", "ListEvents", "EventsReq"}, rpcT{"Audit", "Record", "RecordReq"})
+		rpcT{"Items", "UpdateItem", "UpdateReq"}, rpcT{"Items", "Health", "HealthReq"}, rpcT{"Audit", "ListEvents", "EventsReq"}, rpcT{"Audit", "Record", "RecordReq"},
+		rpcT{"Items", "UpdateMember", "MemberReq"}, rpcT{"Audit", "UpdateOrgMember", "MemberReq"})
 	m, _ := val.New(g.files.Files, "cc.v1."+rp.in)
 	fds := m.Descriptor().Fields()
 	for i := 0; i < fds.Len(); i++ {
 		fd := fds.Get(i)
-		if fd.Name() != "id" && r.Intn(2) == 0 {
+		if fd.Name() != "id" && fd.Name() != "org_id" && r.Intn(2) == 0 {
 			continue // left unset
 		}
 		switch {
@@ -459,7 +472,32 @@ func checkC17(c *chk.Ctx) {
 		refOps = append(refOps, op)
 		refID[k] = id
 	}
-	refEv, refRaces := runDrvRace(c, bin, w.Root, refOps, "ref")
+	// "alone" means alone: every reference call runs in a process of its own, so that state the emitted
+	// package keeps for the whole process (package-level tables, memos, pools) cannot carry anything
+	// from one reference call to the next
+	refEv := map[string][]drv.Event{}
+	var refRaces []string
+	{
+		var mu sync.Mutex
+		var wg sync.WaitGroup
+		sem := make(chan struct{}, 12)
+		for i := range refOps {
+			wg.Add(1)
+			sem <- struct{}{}
+			go func(i int) {
+				defer wg.Done()
+				defer func() { <-sem }()
+				ev, rc := runDrvRace(c, bin, w.Root, refOps[i:i+1], fmt.Sprintf("ref%d", i))
+				mu.Lock()
+				for k, v := range ev {
+					refEv[k] = v
+				}
+				refRaces = append(refRaces, rc...)
+				mu.Unlock()
+			}(i)
+		}
+		wg.Wait()
+	}
 	if len(refRaces) > 0 {
 		c.Infof("race detector reported during the isolated reference runs (sequential): %s", firstN(refRaces[0], 300))
 	}
